@@ -444,7 +444,7 @@ class PauliSum:
         if not hasattr(self, "_circuits"):
             self._circuits = [term.circuit for term in self.terms]
 
-        return self._circuits
+        return list(self._circuits)
 
     @staticmethod
     def identity() -> "PauliSum":
